@@ -21,7 +21,7 @@ ASSUMPTIONS = ["blueprint channels only (the property's domain)", "blueprints ar
 
 FN_PARAMS = {"ramp": ["start", "stop"], "sine": ["freq", "ampl", "off", "phase"], "gaussian": ["ampl", "sigma", "mu", "offset"],
              "gsc": ["ampl", "sigma", "mu", "offset"], "const": ["level"], "lin2": ["a", "b"], "poly4": ["a", "b", "c", "d"],
-             "pi2pulse": ["ampl"], "x9y": ["u", "v"], "lin2~": ["b", "a"], "arb": ["func", "kwargs"]}
+             "pi2pulse": ["ampl"], "x9y": ["u", "v"], "lin2~": ["b", "a"], "arb": ["func", "kwargs"], "istep": ["level"], "icount": ["level"]}
 
 
 def argval(r, f, values=(0.375, -0.625, 1.0)):
